@@ -113,7 +113,7 @@ def write_overlay(gen_root=None):
         rel = os.path.relpath(p, hk)
         repl[os.path.join(REPO, rel)] = p
     os.makedirs(WORK, exist_ok=True)
-    path = os.path.join(WORK, "overlay.json" if gen_root is None else "overlay-%s.json" % os.path.basename(os.path.dirname(gen_root.rstrip("/"))))
+    path = os.path.join(WORK, "overlay.json" if gen_root is None else "overlay-%s%s.json" % (os.path.basename(os.path.dirname(gen_root.rstrip("/"))), "" if os.path.basename(gen_root.rstrip("/")) == "gen" else "-" + os.path.basename(gen_root.rstrip("/"))))
     with open(path, "w") as f:
         json.dump({"Replace": repl}, f, indent=1)
     return path
